@@ -2,7 +2,9 @@ package filesys
 
 import (
 	"fmt"
+	"os"
 	"path"
+	"sync/atomic"
 
 	"github.com/pkg/errors"
 	"golang.org/x/sys/unix"
@@ -83,8 +85,14 @@ func (fs DirFs) Delete(dir, fname string) {
 	}
 }
 
+// tmpCounter makes the temporary file of every AtomicCreate call unique
+var tmpCounter uint64
+
 func (fs DirFs) AtomicCreate(dir, fname string, data []byte) {
-	tmpFile := fname + ".tmp"
+	// concurrent calls (for the same name in other directories, or for the same
+	// file) must not share a temporary file
+	tmpFile := fmt.Sprintf("%s.%d.%d.tmp", fname, os.Getpid(),
+		atomic.AddUint64(&tmpCounter, 1))
 	fd, err := unix.Openat(fs.rootFd, tmpFile,
 		unix.O_CREAT|unix.O_WRONLY|unix.O_TRUNC, 0644)
 	if err != nil {
